@@ -474,5 +474,56 @@ class OwnOutputWords(Part):
         return res
 
 
+class SecondAnonymizer(Part):
+    name = "after_an_anonymizer_with_other_reserved_words"
+    desc = "every ordered pair of anonymizers in one process with the same word list and different user reserved words (same number of them): the second one's output is acceptable for ITS reserved words"
+
+    USER = [None, "PlyRouter", "ply-core", "ply-edge", "sys-core", "Sys-Edge"]
+    WORDS = [["ply", "sys"], ["ply"], ["sys", "sea"]]
+
+    def __init__(self, tier, seed):
+        self.tier, self.seed = tier, seed
+
+    def cases(self):
+        return [{"w": w, "first": i} for w in range(len(self.WORDS)) for i in range(len(self.USER))]
+
+    def _run(self, words, user, lines):
+        from netconan.anonymize_files import FileAnonymizer
+
+        with seams.capture_logs():
+            fa = FileAnonymizer(anon_pwd=False, anon_ip=False, salt="saltForTest", sensitive_words=list(words),
+                                reserved_words=[user] if user else None)
+            out = io.StringIO()
+            fa.anonymize_io(io.StringIO("".join(l + "\n" for l in lines), newline=""), out)
+        return out.getvalue().split("\n")[:-1]
+
+    def run(self, case):
+        res = Res()
+        words = self.WORDS[case["w"]]
+        reserved = builtin_reserved()
+        toks = [u for u in self.USER if u] + [u.lower() for u in self.USER if u] + ["x" + u for u in self.USER if u]
+        toks += tokens_for(words, reserved, None)[:40]
+        lines = list(dict.fromkeys(toks)) + [a + " " + b for a in toks[:12] for b in toks[:12]]
+        if "lines" in case:
+            lines = case["lines"]
+        first = self.USER[case["first"]]
+        try:
+            for j, second in enumerate(self.USER):
+                if "second" in case and case["second"] != j:
+                    continue
+                seams.restore_globals()
+                self._run(words, first, lines)
+                got = self._run(words, second, lines)
+                res.states += 1
+                res.transitions += 2
+                judge(res, words, second, "saltForTest", lines, got, reserved,
+                      {"w": case["w"], "first": case["first"], "second": j}, "after-reserved=%s" % (first,))
+        finally:
+            seams.restore_globals()
+        if "lines" not in case:
+            res.samples.append({"words": words, "first_reserved": first, "lines": len(lines)})
+        return res
+
+
 def parts(tier, seed):
-    return [ListsPart(tier, seed), SecretsPart(tier, seed), SeedPart(tier, seed), HistoryPart(tier, seed), OwnOutputWords(tier, seed)]
+    return [ListsPart(tier, seed), SecretsPart(tier, seed), SeedPart(tier, seed), HistoryPart(tier, seed), OwnOutputWords(tier, seed), SecondAnonymizer(tier, seed)]
